@@ -21,12 +21,13 @@ def as_stood(note):
 first = sum(1 for r in rows if as_stood(r[5]))
 r2 = [r for r in rows if r[5].startswith("round 2")]
 r3 = [r for r in rows if r[5].startswith("round 3")]
+r4 = [r for r in rows if r[5].startswith("round 4")]
 text = (f"{n} seeded changes are kept under `seeded/<id>/` (patch.diff, demo.py, meta.json with the seeding engineer's description and my evaluation). "
         f"{c} are caught by the quick tier of the property's own check; {first} of them were caught by the checks as they stood when the seed arrived, the "
         "others only after the exploration was widened as described in the last column (never by special-casing the seeded input). "
-        f"Rounds 2 and 3 (produced by fresh engineers AFTER the widening of the previous round and told to avoid the kinds already delivered) are the "
+        f"Rounds 2 to 4 (produced by fresh engineers AFTER the widening of the previous round and told to avoid the kinds already delivered) are the "
         f"less biased measurements: round 2: {sum(1 for r in r2 if as_stood(r[5]))} of {len(r2)} caught by the checks as they stood, "
-        f"round 3: {sum(1 for r in r3 if as_stood(r[5]))} of {len(r3)}.\n\n" + "\n".join(out) + "\n")
+        f"round 3: {sum(1 for r in r3 if as_stood(r[5]))} of {len(r3)}, round 4 (five properties, two seeds each, one hour per engineer): {sum(1 for r in r4 if as_stood(r[5]))} of {len(r4)}.\n\n" + "\n".join(out) + "\n")
 p = os.path.join(HERE, "DESIGN.md")
 s = open(p).read()
 a, b = "<!-- SEEDED-TABLE-BEGIN -->", "<!-- SEEDED-TABLE-END -->"
